@@ -979,7 +979,14 @@ where
         let new_capacity = self.len().max(min_capacity);
 
         if self.capacity() > new_capacity {
-            self.reallocate(new_capacity);
+            let new_table = RawTable::with_capacity(new_capacity);
+
+            // Tombstones can make the current capacity lower than that of a
+            // fresh table with the same number of buckets; never trade up.
+
+            if new_table.capacity() < self.capacity() {
+                self.move_to_table(new_table);
+            }
         }
     }
 
